@@ -249,8 +249,10 @@ class RetryExecutor(CanCustomizeBind, Executor):
                 self._submit_thread.join(MAX_TIMEOUT)
             self._log.debug("Shutdown complete")
 
-    def submit(self, *args, **kwargs):  # pylint: disable=arguments-differ
-        return self.submit_retry(self._default_retry_policy, *args, **kwargs)
+    def submit(self, fn, *args, **kwargs):  # pylint: disable=arguments-differ
+        # (not via submit_retry: the callable may have its own keyword
+        # argument named "retry_policy")
+        return self._submit_retry(self._default_retry_policy, fn, args, kwargs)
 
     def submit_retry(self, retry_policy, fn, *args, **kwargs):
         """Submit a callable with a specific retry policy.
@@ -258,6 +260,9 @@ class RetryExecutor(CanCustomizeBind, Executor):
         Parameters:
             retry_policy (RetryPolicy): a policy which is used for this call only
         """
+        return self._submit_retry(retry_policy, fn, args, kwargs)
+
+    def _submit_retry(self, retry_policy, fn, args, kwargs):
         # Lock order: our own lock first, then the shutdown lock.
         # The submit thread holds our lock while it hands a job to the
         # delegate; if the delegate runs the callable synchronously and the
